@@ -65,7 +65,6 @@ func VH_c12_two_sided_interleaved() {
 	}
 }
 
-
 // A memoised list is a value that several goroutines may traverse: every cell is evaluated once (the single-pass
 // source is pulled once per element) and every traversal sees the eager sequence.
 func VH_c12_list_cells_shared_by_two_tasks() {
